@@ -219,6 +219,14 @@ CHECKS['C31'] = dict(
     note='Not decided: value equality after INSERT coercion (CSV fields are always text literals), file-system errors.',
     design='§4 C31')
 
+CHECKS['C23'] = dict(
+    technique='whole-call-graph may-panic inventory over MIR (assert terminators, panicking library calls, explicit panics) with dominance-based discharge rules and a reviewed table (T5); strongly-connected-component analysis of the call graph with depth-guard detection (T6); per-function control-flow cycle analysis for input consumption (loop progress)',
+    text='Decides, for everything reachable from Parser::parse_sql, that no construct can panic except those proved safe by a dominating guard '
+         'or individually reviewed, that every recursive cycle enforces a nesting limit (today: it does not - two known findings), and that '
+         'every loop consumes input on each cycle. These hold for all input strings because the inventory is complete for the compiled code.',
+    note='Not decided: time bounds beyond progress; recursion when the produced tree is dropped; allocation size (tokens are proportional to input).',
+    design='§4 C23')
+
 NOT_APPLICABLE = {
     'C01': 'Equality of result multisets with a reference engine is a value-level semantic equivalence over all queries and data; no structural necessary condition beyond those claimed under C06/C21/C24 exists and a static rule cannot stand in for an oracle.',
     'C03': 'Columnar-vs-row agreement is determined by computed values (empty input, NULL handling, sums); a rejected shape falls back safely, so no table-agreement obligation exists whose breach necessarily changes results.',
